@@ -10,7 +10,7 @@ from .excs import EXT_CLASS_NAMES
 from .interp_expr import Env, PyRaise
 from .ops import bterm, kind, rterm, term, to_sfloat, wrap_bool, wrap_int, wrap_real
 from .path import PathEnd, Unsupported
-from .values import (OpaqueArgs, FIN, NAN, UNDEF, AnyV, BoundV, ClassV, DequeV, EnumMap, EnumSet, EnumVal, EnvFn, ExtV,
+from .values import (OpaqueArgs, PartialV, FIN, NAN, UNDEF, AnyV, BoundV, ClassV, DequeV, EnumMap, EnumSet, EnumVal, EnvFn, ExtV,
                      FuncV, GenExp, LambdaV, LockV, MethodRef, ModuleV, Obj, PySet, Ref, SFloat, SOpt, Sym,
                      TimeDelta, fresh_name)
 
@@ -73,6 +73,8 @@ class CallMixin:
             return self.call_lambda(fv, args, kwargs)
         if isinstance(fv, ClassV):
             return self.construct(fv.info, args, kwargs, node)
+        if isinstance(fv, PartialV):
+            return self.call_value(fv.func, list(fv.args) + list(args), {**fv.kwargs, **kwargs}, node, env)
         if isinstance(fv, EnvFn):
             h = self.env_models.get(fv.tag)
             if h is None:
@@ -364,6 +366,8 @@ class CallMixin:
                 raise Unsupported("getattr with symbolic name")
             default = args[2] if len(args) > 2 else UNDEF
             return self.getattr_value(obj, attr, node, default=default)
+        if name == "functools.partial":
+            return PartialV(args[0], args[1:], kwargs)
         if name == "setattr":
             if not isinstance(args[1], str):
                 raise Unsupported("setattr with symbolic name")
@@ -383,7 +387,7 @@ class CallMixin:
             return r is not sentinel
         if name == "callable":
             v = self.force(args[0])
-            if isinstance(v, (FuncV, BoundV, LambdaV, EnvFn, ClassV, MethodRef)):
+            if isinstance(v, (FuncV, BoundV, LambdaV, EnvFn, ClassV, MethodRef, PartialV)):
                 return True
             if v is None or isinstance(v, (int, float, str, Sym, SFloat, EnumVal)):
                 return False
